@@ -56,19 +56,38 @@ V_HARNESS(h_par)
 /* Hamming 24/18 */
 V_HARNESS(h_ham24)
 {
-  unsigned d, w, b1, b2; uint8_t p[3], q[3]; int r;
+  unsigned d, w; uint8_t p[3];
   V_INIT();
-  d = in_u32() & 0x3FFFF; b1 = in_u8() % 24; b2 = in_u8() % 24;
+  d = in_u32() & 0x3FFFF;
   w = ref_ham24(d);
   vbi_ham24p(p, d);
   V_ASSERT(((unsigned) p[0] | ((unsigned) p[1] << 8) | ((unsigned) p[2] << 16)) == w, "ham24_encode");
   V_ASSERT(vbi_unham24p(p) == (int) d, "ham24_roundtrip");
-  w ^= 1u << b1; q[0] = w & 255; q[1] = (w >> 8) & 255; q[2] = (w >> 16) & 255;
+  V_END();
+}
+V_HARNESS(h_ham24_err1)
+{
+  unsigned d, w, b1; uint8_t q[3];
+  V_INIT();
+  d = in_u32() & 0x3FFFF; b1 = in_u8() % 24;
+#ifdef B1SEL
+  b1 = B1SEL;      /* error position enumerated by the runner */
+#endif
+  w = ref_ham24(d) ^ (1u << b1); q[0] = w & 255; q[1] = (w >> 8) & 255; q[2] = (w >> 16) & 255;
   V_ASSERT(vbi_unham24p(q) == (int) d, "ham24_single_error_corrected");
+  V_END();
+}
+V_HARNESS(h_ham24_err2)
+{
+  unsigned d, w, b1, b2; uint8_t q[3];
+  V_INIT();
+  d = in_u32() & 0x3FFFF; b1 = in_u8() % 24; b2 = in_u8() % 24;
+#ifdef B1SEL
+  b1 = B1SEL;      /* first error position enumerated by the runner, second symbolic */
+#endif
   V_ASSUME(b1 != b2);
-  w ^= 1u << b2; q[0] = w & 255; q[1] = (w >> 8) & 255; q[2] = (w >> 16) & 255;
-  r = vbi_unham24p(q);
-  V_ASSERT(r < 0, "ham24_double_error_rejected");
+  w = ref_ham24(d) ^ (1u << b1) ^ (1u << b2); q[0] = w & 255; q[1] = (w >> 8) & 255; q[2] = (w >> 16) & 255;
+  V_ASSERT(vbi_unham24p(q) < 0, "ham24_double_error_rejected");
   V_END();
 }
 
